@@ -23,7 +23,8 @@ var verifRoot = "/verif"
 type knownFinding struct {
 	Property    string `json:"property"`
 	Fingerprint string `json:"fingerprint"`
-	Status      string `json:"status"` // known | fixed
+	Context     string `json:"context,omitempty"` // context tag that must be on the failing path ("" = any)
+	Status      string `json:"status"`            // known | fixed
 	Description string `json:"description"`
 	Commit      string `json:"commit,omitempty"`
 }
@@ -97,11 +98,23 @@ func cmdExplore(args []string) int {
 	rep := mc.Explore(mc.Config{Scenario: args[0], Depth: *depth, MapMode: *mode, Workers: *workers, MaxStates: *maxStates, ExtraDepth: *extra})
 	b, _ := json.MarshalIndent(rep, "", " ")
 	fmt.Println(string(b))
-	for i, f := range rep.Found {
-		if i > 20 {
-			break
+	type agg struct {
+		n  int
+		ex mc.Found
+	}
+	groups := map[string]*agg{}
+	var order []string
+	for _, f := range rep.Found {
+		k := f.Viol.FP + " ctx=" + strings.Join(f.Viol.Ctx, "+")
+		if groups[k] == nil {
+			groups[k] = &agg{ex: f}
+			order = append(order, k)
 		}
-		fmt.Printf("FOUND %s %s: %s\n   path: %s\n", f.Viol.Prop, f.Viol.Rule, f.Viol.Detail, world.PathString(f.Path))
+		groups[k].n++
+	}
+	for _, k := range order {
+		g := groups[k]
+		fmt.Printf("FOUND x%d %s\n   %s\n   path: %s\n", g.n, k, g.ex.Viol.Detail, world.PathString(g.ex.Path))
 	}
 	fmt.Printf("found=%d\n", len(rep.Found))
 	return 0
@@ -235,11 +248,11 @@ func cmdCheck(args []string) int {
 		}
 		isKnown := false
 		for _, k := range known {
-			if k.Status == "known" && k.Property == id && k.Fingerprint == f.Viol.FP {
+			if k.Status == "known" && k.Property == id && fpMatch(k.Fingerprint, f.Viol.FP) && hasCtx(f.Viol.Ctx, k.Context) {
 				isKnown = true
-				if !printedKnown[k.Fingerprint] {
-					printedKnown[k.Fingerprint] = true
-					fmt.Printf("KNOWN-FINDING: property=%s %s [%s]\n", id, k.Description, k.Fingerprint)
+				if !printedKnown[k.Fingerprint+"@"+k.Context] {
+					printedKnown[k.Fingerprint+"@"+k.Context] = true
+					fmt.Printf("KNOWN-FINDING: property=%s %s [%s@%s]\n", id, k.Description, k.Fingerprint, k.Context)
 				}
 			}
 		}
@@ -258,7 +271,7 @@ func cmdCheck(args []string) int {
 		b, _ := json.MarshalIndent(rf, "", " ")
 		_ = os.WriteFile(name, append(b, '\n'), 0o644)
 		fmt.Printf("VIOLATION property=%s replay=%s\n", id, name)
-		fmt.Printf("  rule=%s fp=%s\n  %s\n  path: %s\n", f.Viol.Rule, f.Viol.FP, f.Viol.Detail, world.PathString(f.Path))
+		fmt.Printf("  rule=%s fp=%s ctx=%v\n  %s\n  path: %s\n", f.Viol.Rule, f.Viol.FP, f.Viol.Ctx, f.Viol.Detail, world.PathString(f.Path))
 	}
 	coverage["known_findings_matched"] = len(printedKnown)
 	if len(harness) > 0 {
@@ -395,4 +408,23 @@ func cmdBench(args []string) int {
 	pprof.StopCPUProfile()
 	fmt.Printf("%d executions of %d ops in %v: %.0f us each\n", n, len(path), time.Since(start), float64(time.Since(start).Microseconds())/float64(n))
 	return 0
+}
+
+func hasCtx(tags []string, want string) bool {
+	if want == "" {
+		return true
+	}
+	for _, t := range tags {
+		if t == want {
+			return true
+		}
+	}
+	return false
+}
+
+func fpMatch(pattern, fp string) bool {
+	if strings.HasSuffix(pattern, "*") {
+		return strings.HasPrefix(fp, pattern[:len(pattern)-1])
+	}
+	return pattern == fp
 }
